@@ -40,12 +40,12 @@ type c14Case struct {
 	Default string             `json:"default"`
 	Bad     map[string]string  `json:"bad,omitempty"` // host -> "throw" | "number" | "unicode" | "null"
 	Zone    map[string]c14Zone `json:"zone"`
-	Hosts   []string           `json:"hosts"` // evaluated concurrently (may repeat)
-	Entry   string             `json:"entry"` // FindProxyForURL | FindProxyForURLEx
+	Hosts   []string           `json:"hosts"`          // evaluated concurrently (may repeat)
+	Entry   string             `json:"entry"`          // FindProxyForURL | FindProxyForURLEx
 	Flip    map[string]c14Zone `json:"flip,omitempty"` // third phase: these names change their DNS answers after an evaluation that consulted DNS has failed
 	zmu     sync.Mutex
-	WOne    int                `json:"w_one"`
-	WRand   int                `json:"w_rand"`
+	WOne    int `json:"w_one"`
+	WRand   int `json:"w_rand"`
 }
 
 var c14HostPool = []string{"www.corp.example.com", "www.corp-example.com", "intranet", "db", "api.v2.corp.example.com", "mail.partner.example.org", "wwwxcorp.example.com",
@@ -57,8 +57,8 @@ var c14Results = []string{"DIRECT", "PROXY proxy-a.example:8080", "HTTPS proxy-b
 // c14ResultParse is what the result-list grammar says about each entry of the lists above: scheme, host, port of
 // every well-formed entry, or "malformed".
 var c14ResultParse = map[string][]string{
-	"DIRECT":                     {"direct"},
-	"PROXY proxy-a.example:8080": {"http proxy-a.example 8080"},
+	"DIRECT":                                  {"direct"},
+	"PROXY proxy-a.example:8080":              {"http proxy-a.example 8080"},
 	"HTTPS proxy-b.example:8443; DIRECT":      {"https proxy-b.example 8443", "direct"},
 	"SOCKS5 socks-s.example:1080":             {"socks5 socks-s.example 1080"},
 	"PROXY p1.example:1; PROXY p2.example:2":  {"http p1.example 1", "http p2.example 2"},
@@ -165,7 +165,8 @@ func genC14(t *tape.Tape, tier string) any {
 	}
 	if t.Chance(1, 3) {
 		c.Flip = map[string]c14Zone{}
-		for h, z := range c.Zone {
+		for _, h := range sortedZoneKeys(c.Zone) {
+			z := c.Zone[h]
 			if len(c.Flip) >= 2 || c.Bad[h] != "" {
 				continue
 			}
@@ -609,7 +610,6 @@ func firstDifferingHelper(c *c14Case, host, got string) string {
 func init() {
 	core.Register(&core.World{
 		Property: "C14", Name: "c14-pac", Level: "exploration",
-		TimerRaces: "Go's DNS stub resolver arms one 5 s timeout per in-flight query; queries started in the same scheduler step expire at the same simulated instant and their retries reach the simulated network in an order the runtime does not fix, so connection ordinals differ; the oracle compares answers only",
 		Gen: genC14, Run: runC14,
 		Shape: func(ci any) string {
 			c := ci.(*c14Case)
@@ -620,9 +620,9 @@ func init() {
 			}
 			return sb.String()
 		},
-		Real: []string{"pac.ProxyResolverPool / ProxyResolver (goja VM, ascii_pac_utils.js helpers, Go helpers dnsResolve/isInNetEx/dnsResolveEx), pac.Proxies result parsing", "Go's pure DNS stub resolver (net.Resolver{PreferGo:true}) speaking DNS wire format to the simulated server"},
-		Stub: append([]string{"DNS server -> scripted node answering from a generated zone with latency, NXDOMAIN, SERVFAIL or silence"}, stubCommon...),
-		Rule: "decision-tree scripts over isPlainHostName, dnsDomainIs, localHostOrDomainIs, dnsDomainLevels, shExpMatch, isInNet, isResolvable, isInNetEx/dnsResolveEx with literal arguments (dotted masks, CIDRs, globs of literals '.', '*', '?'); per-host failures (throw, non-string, non-ASCII, null); 2-16 evaluations issued concurrently through the pool, each blocking in DNS lookups that the scheduler interleaves, after failing evaluations have gone through the pool; then the same calls one at a time on a fresh pool. Oracle: concurrent == sequential == independent Go reference evaluation against the same zone; result lists parse into the expected number of entries.",
+		Real:        []string{"pac.ProxyResolverPool / ProxyResolver (goja VM, ascii_pac_utils.js helpers, Go helpers dnsResolve/isInNetEx/dnsResolveEx), pac.Proxies result parsing", "Go's pure DNS stub resolver (net.Resolver{PreferGo:true}) speaking DNS wire format to the simulated server"},
+		Stub:        append([]string{"DNS server -> scripted node answering from a generated zone with latency, NXDOMAIN, SERVFAIL or silence"}, stubCommon...),
+		Rule:        "decision-tree scripts over isPlainHostName, dnsDomainIs, localHostOrDomainIs, dnsDomainLevels, shExpMatch, isInNet, isResolvable, isInNetEx/dnsResolveEx with literal arguments (dotted masks, CIDRs, globs of literals '.', '*', '?'); per-host failures (throw, non-string, non-ASCII, null); 2-16 evaluations issued concurrently through the pool, each blocking in DNS lookups that the scheduler interleaves, after failing evaluations have gone through the pool; then the same calls one at a time on a fresh pool. Oracle: concurrent == sequential == independent Go reference evaluation against the same zone; result lists parse into the expected number of entries.",
 		Assumptions: []string{"helper arguments stay inside the domain on which the Netscape text and the Mozilla/Chromium implementations agree", "a name's DNS behaviour (answer, NXDOMAIN, SERVFAIL, silence) is fixed per run, so a lookup fails in every phase or in none"},
 	})
 }
